@@ -33,6 +33,8 @@ def finalize_query(sc):
         probe = dict(sc)
         probe["nexts"] = DRAIN_CAP
         rec = observe_query(probe)
+        if rec == "nosrc":
+            rec = []
         n = 0
         for seg in rec:
             n += 1
